@@ -72,13 +72,20 @@ Example C02_static_sibling_nonvacuous :
   jail (bs "/x/..//dir/./c.txt" ++ bs ".zst") = bs "/dir/c.txt.zst".
 Proof. vm_compute. reflexivity. Qed.
 
-(* An identity-encoded body is a regular file that is not hidden. *)
-Theorem C02_static_plain_body_regular_not_hidden :
-  forall fs hide pages prefix m req ae n,
-  serve_file fs hide pages prefix m req ae = Serve n None ->
+(* Every body — identity-encoded or a precompressed sibling — is a regular file that is not
+   hidden: a directory named like a sibling (name ++ ext) is passed over. *)
+Theorem C02_static_serves_regular_file :
+  forall fs hide pages prefix m req ae n enc,
+  serve_file fs hide pages prefix m req ae = Serve n enc ->
   n_dir n = false /\ is_hidden fs hide n = false.
-Proof. exact static_plain_body. Qed.
-Print Assumptions C02_static_plain_body_regular_not_hidden.
+Proof. exact static_body_regular. Qed.
+Print Assumptions C02_static_serves_regular_file.
+
+(* the fixture has the directory /dir/e.gz beside the file /dir/e *)
+Example C02_static_serves_regular_file_nonvacuous :
+  serve_file fixture_fs gen_c02_hide gen_default_index_pages [SLASH] 0 (bs "/dir/e") (bs "gzip")
+  = Serve {| n_path := bs "/dir/e"; n_dir := false; n_id := 24 |} None.
+Proof. vm_compute. reflexivity. Qed.
 
 (* However the path of a hidden regular file is spelled, the answer carries no content at all
    (it is 404, or the trailing-slash redirect). *)
@@ -111,15 +118,6 @@ Example C02_static_never_hidden_nonvacuous :
       ["gzip"; "br, gzip"; ""]%string
   = [(bs "/hsib.txt", None); (bs "/hsib.txt", None); (bs "/hsib.txt", None)].
 Proof. vm_compute. reflexivity. Qed.
-
-(* "regular files", full statement: FALSE of the faithful model — the sibling lookup does not
-   check that name ++ ext is a regular file; a directory of that name is "served". *)
-Theorem C02_static_serves_regular_file_refuted :
-  exists fs hide pages req ae n enc,
-  serve_file fs hide pages [SLASH] 0 req ae = Serve n enc /\ n_dir n = true.
-Proof. exact static_serves_regular_file_refuted. Qed.
-Print Assumptions C02_static_serves_regular_file_refuted.
-(* (partial form: C02_static_plain_body_regular_not_hidden above) *)
 
 (* ---- the origin Casketfile ---------------------------------------------------------------- *)
 (* hideCasketfile: for an origin inside the root (absolute origin = absolute root ++ c, c cleaned)
@@ -224,7 +222,7 @@ Theorem C02_site_sound :
   | Serve n enc =>
       is_get_head (q_meth r) = true /\ In n (s_fs s) /\
       served_from (s_pages s) (q_path r) (q_ae r) enc (n_path n) /\
-      (enc = None -> n_dir n = false) /\ is_hidden (s_fs s) (s_hide s) n = false
+      n_dir n = false /\ is_hidden (s_fs s) (s_hide s) n = false
   | Listing kids =>
       forall k, In k kids -> In k (s_fs s) /\ is_child (jail (q_path r)) (n_path k) = true /\
                              is_hidden (s_fs s) (s_hide s) k = false
